@@ -138,8 +138,10 @@ class Reporter:
                     "  %s %s -- %s -- %s%s\n      witness: %s\n"
                     % (o.loc or "-", o.where, o.rule, o.construct, (" -- case " + json.dumps(o.case)) if o.case is not None else "", o.witness)
                 )
-            replay = os.path.join(VERIF, "evidence", "%s.violation.json" % prop)
+            replay = os.path.join(os.environ.get("VP_EVIDENCE_DIR") or os.path.join(VERIF, "evidence"), "%s.violation.json" % prop)
             try:
+                if os.environ.get("VP_NO_EVIDENCE"):
+                    raise OSError
                 os.makedirs(os.path.dirname(replay), exist_ok=True)
                 with open(replay, "w") as fd:
                     json.dump({"property": prop, "tier": self.tier, "violations": [dict(o.as_dict(), key=o.key(prop)) for o in new_viol]}, fd, indent=1)
@@ -158,7 +160,8 @@ class Reporter:
             if code == 2 and not os.environ.get("VP_STRICT_ERRORS"):
                 code = 1
 
-        self._write_evidence(len(new_viol), known_hit, undec)
+        if not os.environ.get("VP_NO_EVIDENCE"):
+            self._write_evidence(len(new_viol), known_hit, undec)
         n = len(self.obligations)
         npr = sum(1 for o in self.obligations if o.verdict == PROVED)
         out.write(
